@@ -12,14 +12,21 @@ GROUPS = [
          bounded="one (state, left context) list of <= 2 entries with symbolic scores and 128-bit right-context sets, one addition, witness bit"),
 ]
 
+NATIVE = [
+    dict(name="viterbi_union_enum", source="native/viterbi_union_enum.c", repo_sources="ALL_EXCEPT:", cflags=["-w", "-fsanitize=address"],
+         args={"quick": [], "thorough": ["thorough"]}, exhaustive=False, timeout=3000,
+         bound="metamorphic run on tests/data/goforward.raw (en-us, all beams 0, batch CMN, compallsen): for 48 ordered pairs (thorough 240) of sentences whose words share leading phones "
+               "(for / four / ford / fork / forth / forward / forwards, meter / meters, ten / tenth, go / goes), as probability-1 FSGs with separate paths and with shared prefix states: "
+               "score(S1 | S2) == max(score(S1), score(S2)) and the better sentence is the one reported"),
+]
 ASSUMPTIONS = [
     "WF_HMM precondition: state scores are WORST_SCORE or in [WORST_SCORE + 2^20, 0], activity is prefix-closed, senone scores are >= 0 (negated logs), exit inactive while state 1 is",
     "3-state topologies only (the shipped models); hmm_vit_eval_5st_lr(_mpx) and hmm_vit_eval_anytopo are not under contract",
     "a skip arc of the 3-state code exists iff its stored cost is < 255 (TMAT_WORST_SCORE)",
 ]
 HAND_LEMMAS = ["global optimality over all alignments is the standard Viterbi induction over frames from the local max-plus step; not machine checked"]
-NOT_COVERED = ["global optimum over all alignments", "fsg_search transitions (pnode_trans/word_trans/null_prop)", "lextree / triphone construction", "5-state and any-topology evaluators"]
+NOT_COVERED = ["global optimum over all alignments", "fsg_search transitions (pnode_trans/word_trans/null_prop)", "lextree / triphone construction", "5-state and any-topology evaluators", "the global optimum over whole sentences (lextree construction, word transitions, cross-word triphones) is NOT under contract; it is exercised only by the bounded native metamorphic run viterbi_union_enum (union of two sentences scores the maximum of its parts) -- never counted as proved"]
 CLAIM = dict(
     text="Each Viterbi step of the 3-state HMM evaluators (hmm_vit_eval_3st_lr and its multiplex variant) is proved, for ALL int32 score vectors satisfying the HMM invariant, all senone scores and all transition bytes, to be the exact clamped max-plus step over the legal arcs: every state's new score is the maximum of its predecessors' score minus senone score minus arc cost, each weight used once, back-pointers follow an arg-max predecessor, the best score is the maximum, nothing wraps. The history pruning rule (fsg_history_entry_add) is checked on lists of <= 2 entries with symbolic 128-bit right-context sets: for every right context the best score on offer is kept (bounded). Global optimality of the search is NOT decided (local steps only).",
     note="local optimality steps only; preconditions WF_HMM; search transitions, history pruning, lextree and the global maximum are not covered; trusted: CBMC 6.11",
-    technique="CBMC function contract enforced with goto-instrument --dfcc, loop-free code over the full input domain; counterexamples replayed natively through a constructive harness")
+    technique="CBMC function contract enforced with goto-instrument --dfcc, loop-free code over the full input domain; counterexamples replayed natively through a constructive harness; bounded native metamorphic run (optimum of a union grammar = maximum over its parts, pruning off) as safety net for the global clause")
